@@ -61,6 +61,7 @@ type hist struct {
 
 	phantom    map[string]crypto.PrivKey
 	lcaVerdict map[string]lcaInfo // by hash of the evidence bytes
+	dveMemo    map[string]lcaInfo // reference verdicts already computed (decided heights only)
 
 	// model
 	committed map[string]int64  // evidence hash -> height of the block that carried it
@@ -230,6 +231,7 @@ func (h *hist) observe(op string, s11 int64, afterRestart bool) *obs {
 		h.c.Count("size_drift_events", 1)
 	}
 	h.drift = d
+	h.c.Max("max_pending_items_seen", int64(len(o.set)))
 	// every pending item proves what it claims and was never committed
 	for k, ev := range o.items {
 		if ch, was := h.committed[k]; was {
